@@ -172,6 +172,32 @@ def Coord.request {β : Type} (c : Coord β) (isB : Bool) (next : β × β) : Co
   if isB then (⟨c1.qA, c1.qB.tail, c1.draws⟩, c1.qB.head?, needDraw)
   else (⟨c1.qA.tail, c1.qB, c1.draws⟩, c1.qA.head?, needDraw)
 
+/-- the coordinator on a generator that a third consumer also draws from: `pos` deviates have been taken from the generator so
+far, `starts` are the positions at which the joint draws began -/
+structure Shared (β : Type) where
+  c : Coord β
+  gotA : List β
+  gotB : List β
+  pos : Nat
+  starts : List Nat
+
+def Shared.init {β : Type} : Shared β := ⟨⟨[], [], []⟩, [], [], 0, []⟩
+
+/-- one step: `none` = the third consumer takes one deviate; `some isB` = a request from mode A / B, which makes the joint draw
+`joint (d pos) (d (pos+1))` from the next two deviates of the stream `d` when its queue is empty -/
+def sharedStep {β : Type} (d : Nat → β) (joint : β → β → β × β) (s : Shared β) : Option Bool → Shared β
+  | none => { s with pos := s.pos + 1 }
+  | some isB =>
+    let r := s.c.request isB (joint (d s.pos) (d (s.pos + 1)))
+    { c := r.1
+      gotA := (match r.2.1 with | some x => if isB then s.gotA else s.gotA ++ [x] | none => s.gotA)
+      gotB := (match r.2.1 with | some x => if isB then s.gotB ++ [x] else s.gotB | none => s.gotB)
+      pos := if r.2.2 then s.pos + 2 else s.pos
+      starts := if r.2.2 then s.starts ++ [s.pos] else s.starts }
+
+def sharedRun {β : Type} (d : Nat → β) (joint : β → β → β × β) (ops : List (Option Bool)) : Shared β :=
+  ops.foldl (sharedStep d joint) Shared.init
+
 /-! ### dual-mode samples (`superposed.cpp`, `composite.cpp`, `disjoint.cpp`, `coherent.cpp`) -/
 
 /-- what a (possibly decorated) mode reports -/
